@@ -29,7 +29,18 @@ ID = "C17"
 LEVEL = "fault_enumeration"
 ANCHORS = ["prov.model:ProvDocument.serialize"]
 NAMES = ["plain.out", "with space.out", "ünï-cødé.out", "a#b.out", "x?y=1.out", "semi;colon.out", "c:d.out", "per%20cent.out", "sub/dir.out",
-         "ABS", "trailing.", "file:REL", "dotted..name", "~tilde.out", "FILEURL", "run:1.out", "prov-2.0:out file.out", "http:x.out", "+plus.out", "LINK/../via-symlink.out", "SYMLINK-TO-FILE", "A-DIRECTORY", "SYMLINK-TO-DIR"]
+         "ABS", "trailing.", "file:REL", "dotted..name", "~tilde.out", "FILEURL", "run:1.out", "prov-2.0:out file.out", "http:x.out", "+plus.out", "LINK/../via-symlink.out", "SYMLINK-TO-FILE", "A-DIRECTORY", "SYMLINK-TO-DIR", "~/in-a-directory-called-tilde.out",
+         "PATHLIB-OBJECT", "FSPATH-OBJECT"]
+
+
+class FsPath:
+    """Some object that implements os.PathLike (as os.DirEntry does) without being a pathlib path: str() of it is not the path."""
+
+    def __init__(self, path):
+        self._p = path
+
+    def __fspath__(self):
+        return self._p
 FORMATS = ["json", "xml", "provn", "rdf"]
 _audit = {"on": False, "log": []}
 
@@ -131,6 +142,12 @@ def resolve_name(kind, box):
                 f.write(b"previous content that must survive\n" * 40)
             os.symlink(os.path.join("vault", "current.out"), os.path.join(box, "latest.out"))
         return "latest.out", os.path.join(box, "latest.out")
+    if kind == "~/in-a-directory-called-tilde.out":
+        os.makedirs(os.path.join(box, "~"), exist_ok=True)       # a directory literally named "~"; HOME points elsewhere (see Box)
+    if kind in ("PATHLIB-OBJECT", "FSPATH-OBJECT"):
+        import pathlib
+        p = os.path.join(box, "named-by-an-object.out")
+        return (pathlib.Path(p) if kind == "PATHLIB-OBJECT" else FsPath(p)), p
     if kind == "SYMLINK-TO-DIR":
         # the name is a symbolic link to a directory: the document replaces the link (the name then is the file); nothing is
         # written into the directory
@@ -168,10 +185,16 @@ class Box:
         os.chdir(self.dir)
         os.environ["TMPDIR"] = self.tmp
         tempfile.tempdir = self.tmp
+        self.oldhome = os.environ.get("HOME")
+        os.environ["HOME"] = self.tmp        # "~" must not mean anything to a plain file name; if it does, it shows up here
         return self
 
     def __exit__(self, *a):
         os.chdir(self.cwd)
+        if self.oldhome is None:
+            os.environ.pop("HOME", None)
+        else:
+            os.environ["HOME"] = self.oldhome
         if self.oldtmp[0] is None:
             os.environ.pop("TMPDIR", None)
         else:
@@ -448,6 +471,33 @@ def run_inprocess(ctx, case, problems):
             elif changed:
                 problems.append({"fault": None, "problem": "serialize(%r) %s and left files created/modified/removed: %s" % (arg, outcome, changed)})
         return 1
+    if case["name"] in ("PATHLIB-OBJECT", "FSPATH-OBJECT"):
+        # a destination named by an os.PathLike object: either the library takes it for the path it denotes (then the clean-run rule
+        # below applies: exactly that file, exactly those bytes), or it refuses it and nothing changes anywhere
+        with Box(ctx.root) as box:
+            arg, dest = resolve_name(case["name"], box.dir)
+            if present:
+                with open(dest, "wb") as f:
+                    f.write(b"previous content\n")
+            before = listing(box.dir, box.tmp)
+            try:
+                doc.serialize(arg, format=fmt, **kw)
+                outcome = "returned normally"
+            except Exception as e:
+                outcome = "raised %s" % type(e).__name__
+            after = listing(box.dir, box.tmp)
+            ctx.count("pathlike_destination.%s" % outcome.split(" ")[0])
+            changed = {p for p in set(before) | set(after) if before.get(p) != after.get(p)}
+            shown = sorted(os.path.relpath(p, ctx.root) for p in changed)
+            if outcome == "returned normally":
+                if changed != {dest}:
+                    problems.append({"fault": None, "problem": "serialize(<%s for %r>) returned normally; files created/modified: %s, expected exactly the named one"
+                                     % (type(arg).__name__, os.path.basename(dest), shown)})
+                elif not same_serialisation(fmt, open(dest, "rb").read(), ref, doc, same_process=True):
+                    problems.append({"fault": None, "problem": "bytes at the destination named by a path-like object differ from the serialisation"})
+            elif changed:
+                problems.append({"fault": None, "problem": "serialize(<%s>) %s and left files created/modified/removed: %s" % (type(arg).__name__, outcome, shown)})
+        return 1
     nwrites = attempt(None)
     if problems:
         return injected
@@ -548,7 +598,7 @@ def run_oslevel(ctx, case, problems):
         return 0
     fmt = case["fmt"]
     injected = 0
-    if case["name"] == "A-DIRECTORY":
+    if case["name"] in ("A-DIRECTORY", "PATHLIB-OBJECT", "FSPATH-OBJECT"):
         return 0
     RDF_SYNTAX[0] = (case.get("kw") or {}).get("rdf_format", "trig")
     PREV = b"previous content that must survive\n" * 40
@@ -569,6 +619,7 @@ def run_oslevel(ctx, case, problems):
             e = dict(os.environ)
             e["TMPDIR"] = os.path.join(work, "tmp")
             os.makedirs(e["TMPDIR"], exist_ok=True)
+            e["HOME"] = e["TMPDIR"]
             e["PYTHONDONTWRITEBYTECODE"] = "1"
 
             def child(inject=None):
